@@ -61,6 +61,7 @@ def summarize(rep: Report, jobs, results, prop, level, rule, extra_cov=None, fea
     agg = Counter()
     samples = []
     crashes = []
+    timed_out = []
     rejected = Counter()
     fam = Counter()
     nontrivial = 0
@@ -69,6 +70,11 @@ def summarize(rep: Report, jobs, results, prop, level, rule, extra_cov=None, fea
             rep.harness_error("%s: %s" % (r.get("_job"), r["harness_error"]))
             continue
         st[r["status"]] += 1
+        if r.get("timed_out"):
+            agg["obligations"] += 1
+            agg["inconclusive"] += 1
+            timed_out.append(r.get("id"))
+            continue
         if r["status"] == "crash":
             crashes.append({"id": r["id"], "detail": r["detail"]})
             continue
@@ -121,6 +127,7 @@ def summarize(rep: Report, jobs, results, prop, level, rule, extra_cov=None, fea
         "compile_status": dict(st),
         "rejected_by_pyteal": dict(rejected),
         "compiler_crashes": crashes[:40],
+        "jobs_over_the_time_limit (inconclusive)": timed_out[:40],
         "families": dict(fam),
         "known_findings_hit": dict(rep.known_hits),
         "functions_encoded": "emitted TEAL of every program (SymAVM); reference = recipe semantics (verif/recipe/ref.py)",
